@@ -7,7 +7,7 @@ use serde_json::json;
 pub fn run(ctx: &Ctx) -> Outcome {
     let sp = spaces::c01_space(ctx.tier, ctx.seed, false, 4, 5, 3, 3, 2_000, 30_000);
     let texts = spaces::texts_c01(ctx.tier.pick(3, 3));
-    let cfg = DiffCfg { prop: "C01", compare: Compare::Span, entry_points: true, ref_budget: crate::refm::BUDGET, step_cap: Some(2_000_000), exclude: &diff::default_exclude, static_known: &diff::no_static_known, style: None, f1_compat: false };
+    let cfg = DiffCfg { prop: "C01", compare: Compare::Span, entry_points: true, ref_budget: crate::refm::BUDGET, step_cap: Some(2_000_000), exclude: &diff::default_exclude, static_known: &diff::fy_known, style: None, f1_compat: false };
     let mut acc = diff::run(ctx, &cfg, &sp.patterns, &texts);
     let mut describe = sp.describe.clone();
     if ctx.tier == Tier::Thorough {
@@ -43,6 +43,16 @@ pub fn run(ctx: &Ctx) -> Outcome {
         acc.add("literal-loop-evaluations", a7.evals);
         acc.merge(a7);
         describe.push_str(&format!("; plus {} patterns 'two literals, a greedy loop over one literal, a continuation, a word boundary' x all texts over a b - up to length 4, every offset", items.len()));
+    }
+    // alternations whose branches share a leading element that can end in more than one place
+    // (finding FY: regex-syntax rewrites a delegated `a+b|a+c` to `a+(?:b|c)`)
+    {
+        let texts = crate::gen::texts(&["a", "b", "-"], 4);
+        let items: Vec<diff::PairItem> = crate::gen::common_prefix_alt_family().into_iter().map(|p| diff::PairItem { pattern: p, reference: None, texts: texts.clone(), all_offsets: true }).collect();
+        let a8 = diff::run_items(ctx, "C01", &items, false, crate::refm::BUDGET);
+        acc.add("common-prefix-alternation-evaluations", a8.evals);
+        acc.merge(a8);
+        describe.push_str(&format!("; plus {} alternations whose branches start with the same element (a+ a* [ab]+ [ab]*? .+ a{{1,2}} \\w+ (?:a|ab), controls a and [ab]{{2}}) x 6 pairs of tails, bare / grouped / behind (?=) / with a third branch, x all texts over a b - up to length 4, every offset (class of finding FY when the shared element can end in more than one place)", items.len()));
     }
     // wide match state: 3-8 groups in a counted loop that has to be undone
     {
@@ -85,6 +95,7 @@ pub fn run(ctx: &Ctx) -> Outcome {
         describe.push_str(&format!("; plus {} patterns (?i:P), P from context products and trees of <= 3 nodes over k K s LONG-S ks (?-i:k) . \\b, and the family quantified-X-next-to-Y with X, Y from k K (?i:k) (?i:K) (?-i:k) s (?i:s) LONG-S in front of / behind \\b, (?=-), (?=), (.)\\1?, bare and inside (?i:..), judged against the reference run on P with every letter replaced by the class of its case orbit, x all texts over k K KELVIN-SIGN s LONG-S - up to length 3, every offset", items.len()));
     }
     diff::run_witnesses(ctx, "C01", "F1", &mut acc);
+    diff::run_witnesses(ctx, "C01", "FY", &mut acc);
     let mut out = Outcome::new(acc);
     out.distinct_nontrivial = out.acc.distinct;
     out.rule = format!("patterns: {}; texts: all strings over {{a,b,c,é,\\n,-}} up to the length bound, every char-boundary start offset; excluded classes counted under counters.excluded:*. A pattern is non-trivial if it took the VM route, executed >=1 delegate and >=1 backtrack on some text, and matched one text and failed on another.", describe);
